@@ -65,3 +65,90 @@ def use_real_floats() -> None:
     """
     bl = builtinslib
     bl._PYTYPE_TO_WRAPPER_TYPE[float] = ((bl.RealBasedSymbolicFloat, 1.0),)
+
+
+# ------------------------------------------------------------------ bitwise operations on symbolic ints (M9)
+# CrossHair realizes symbolic ints in << | & (DESIGN F11), and Int2BV/BV2Int terms stall z3 (F20).  For the operand
+# shapes the library uses they are plain arithmetic; each rewrite below is *guarded by a checked condition* (a fork the
+# solver decides), so it is exact wherever it applies, and falls back to CrossHair's own behaviour otherwise.
+_SI = builtinslib.SymbolicInt
+_orig_bit = {}
+
+
+def _is_concrete_int(x: Any) -> bool:
+    with NoTracing():
+        return type(x) is int
+
+
+def _lshift(self, other):
+    if _is_concrete_int(other) and 0 <= other <= 64:
+        return self * (1 << other)
+    return _orig_bit["__lshift__"](self, other)
+
+
+def _and(self, other):
+    if _is_concrete_int(other) and other >= 0 and (other & (other + 1)) == 0:  # mask 2^k - 1
+        if self >= 0:
+            return self % (other + 1)
+    return _orig_bit["__and__"](self, other)
+
+
+def _or_general(a, b, fallback):
+    for k in (4, 10, 16):
+        m = 1 << k
+        if a % m == 0:
+            if 0 <= b:
+                if b < m:
+                    return a + b
+    return fallback()
+
+
+def _or(self, other):
+    if _is_concrete_int(other) and other == 0:
+        return self
+    return _or_general(self, other, lambda: _orig_bit["__or__"](self, other))
+
+
+def _ror(self, other):
+    if _is_concrete_int(other) and other == 0:
+        return self
+    return _or_general(other, self, lambda: _orig_bit["__ror__"](self, other))
+
+
+def model_str_encode(self, encoding: Any = "utf-8", errors: Any = "strict"):
+    """str.encode('utf-8') as arithmetic over the code points (exact; surrogates are outside the harness domain)."""
+    with NoTracing():
+        sym = isinstance(self, builtinslib.AnySymbolicStr)
+    if not sym or encoding not in ("utf-8", "utf8", "UTF-8") or errors != "strict":
+        with NoTracing():
+            s = deep_realize(self)
+        return s.encode(realize(encoding), realize(errors))
+    out = []
+    for chx in self:
+        c = ord(chx)
+        if c < 0x80:
+            out.append(c)
+        elif c < 0x800:
+            out.append(0xC0 + c // 64)
+            out.append(0x80 + c % 64)
+        elif c < 0x10000:
+            out.append(0xE0 + c // 4096)
+            out.append(0x80 + (c // 64) % 64)
+            out.append(0x80 + c % 64)
+        else:
+            out.append(0xF0 + c // 262144)
+            out.append(0x80 + (c // 4096) % 64)
+            out.append(0x80 + (c // 64) % 64)
+            out.append(0x80 + c % 64)
+    return out  # only iterated by the code under analysis
+
+
+def install_bitwise() -> None:
+    if not _orig_bit:
+        for nm in ("__lshift__", "__and__", "__or__", "__ror__"):
+            _orig_bit[nm] = getattr(_SI, nm)
+    _SI.__lshift__ = _lshift  # type: ignore[assignment]
+    _SI.__and__ = _and  # type: ignore[assignment]
+    _SI.__or__ = _or  # type: ignore[assignment]
+    _SI.__ror__ = _ror  # type: ignore[assignment]
+    core._PATCH_REGISTRATIONS[str.encode] = model_str_encode
